@@ -5,8 +5,8 @@ worktree of /repo HEAD: (1) the unedited suite still passes with the change (sam
 BASELINE.json), (2) the demonstration fails with the change, (3) passes without it.  Confirmed seeds
 are copied to /verif/seeded/<ID>-<X>/ with a meta.json recording what was run."""
 import json, os, re, shutil, subprocess, sys, time
-
-ROOT = '/tmp/confirm'
+ROOT = os.environ.get('CONFIRM_ROOT', '/tmp/confirm')
+SEEDROOT = os.environ.get('SEED_ROOT', '/tmp/seed')
 WT = ROOT + '/wt'
 TARGET = ROOT + '/target'
 BASE = json.load(open('/root/.vp/BASELINE.json'))
@@ -61,7 +61,7 @@ def run_demo(pid, x, out):
         return rc, log, 'cp %s.demo.rs tests/%s.rs && cargo test --offline --test %s' % (x, name, name)
     if os.path.exists(shf):
         # scripts were written for the agent's own worktree path: point them at ours
-        txt = open(shf).read().replace('/tmp/seed/%s/wt' % pid, WT).replace('/tmp/seed/%s/target' % pid, TARGET + '_demo')
+        txt = open(shf).read().replace('%s/%s/wt' % (SEEDROOT, pid), WT).replace('%s/%s/target' % (SEEDROOT, pid), TARGET + '_demo')
         p = ROOT + '/demo.sh'
         open(p, 'w').write(txt); os.chmod(p, 0o755)
         rc, log = sh('bash %s' % p, WT, env={'CARGO_TARGET_DIR': TARGET + '_demo'}, timeout=1800)
@@ -76,7 +76,7 @@ def main():
     head = subprocess.check_output('git -C /repo rev-parse --short HEAD', shell=True).decode().strip()
     for spec in sys.argv[1:]:
         pid, x = spec.split(':')
-        out = '/tmp/seed/%s/out' % pid
+        out = '%s/%s/out' % (SEEDROOT, pid)
         patch = '%s/%s.patch.diff' % (out, x)
         r = {'seed': spec, 'repo_head': head}
         if not os.path.exists(patch):
